@@ -140,8 +140,7 @@ def run_shard(ctx):
         def t(name, via):
             try:
                 check_table_name(ctx, name, via)
-                if ctx.evaluations % 501 == 0:
-                    ctx.sample({"kind": "table-name", "name": name, "via": via})
+                ctx.maybe_sample({"kind": "table-name", "name": name, "via": via}, 501)
             except Abandon:
                 pass
         return t
